@@ -7,16 +7,19 @@ CONSTANTS
   MaxBg = 99
   MaxLosses = 99
   MaxLogins = 99
+  SlowScan = {TRUE, FALSE}
   Env = {"exec", "peerin", "userdisc", "midburst"}
   MaxConnFail = 99
   FixAutoJoin = TRUE
   FixDistStopped = TRUE
   FixWatchdogStopped = TRUE
+  FixCancelFirst = TRUE
   FixTimersStopped = TRUE
   FixStaleInit = TRUE
   FixSelfAwait = TRUE
   MarksMode = FALSE
   FixQueueOnce = TRUE
+  FixScanStopped = TRUE
 INVARIANT Adv_listen
 INVARIANT Adv_status
 INVARIANT Adv_shares
